@@ -264,6 +264,8 @@ pub struct Cfg {
     pub events: bool,
     /// Clients whose app is built with one extra replication rule (a different protocol).
     pub mismatch: Vec<usize>,
+    /// Register `OwnedBy` as a second synchronized relationship.
+    pub with_owner: bool,
     /// The client's connection status and its incoming messages are applied by a system in
     /// `ClientSet::ReceivePackets`, the way a messaging backend does it (the connection and the
     /// first messages arrive inside the same client frame), instead of between frames.
@@ -293,6 +295,7 @@ impl Default for Cfg {
             events: false,
             mismatch: vec![],
             hist: false,
+            with_owner: false,
             backend_style: false,
         }
     }
@@ -317,6 +320,14 @@ fn backend_receive(mut inbox: ResMut<Inbox>, mut client: ResMut<RepliconClient>)
         client.insert_received(ch, bytes);
     }
 }
+
+/// A second relationship type (not replicated itself) registered for synchronized replication.
+#[derive(Component)]
+#[relationship(relationship_target = Owning)]
+pub struct OwnedBy(pub Entity);
+#[derive(Component)]
+#[relationship_target(relationship = OwnedBy)]
+pub struct Owning(Vec<Entity>);
 
 /// Marker of the history-keeping write path (see `Cfg::hist`).
 #[derive(Component)]
@@ -431,6 +442,9 @@ pub fn build_app_with(cfg: &Cfg, extra_rule: bool) -> App {
         if cfg.sync_rel {
             app.sync_related_entities::<ChildOf>();
         }
+    }
+    if cfg.with_owner {
+        app.sync_related_entities::<OwnedBy>();
     }
     if cfg.track {
         app.track_mutate_messages();
@@ -658,6 +672,9 @@ pub enum Op {
     InsRef(u8, u8),
     SetParent(u8, u8),
     ClearParent(u8),
+    /// The second relationship: `OwnedBy(owner)` on slot.
+    SetOwner(u8, u8),
+    ClearOwner(u8),
     /// Spawn slot with `mask` as a child of the parent slot: marker, components and `ChildOf`
     /// arrive in one bundle.
     SpawnChild(u8, u16, u8),
@@ -670,6 +687,9 @@ pub enum Op {
     MapPre(u8, u8),
     /// Same, but the server entity starts without the replication marker (`Mark` comes later).
     MapPreUnmarked(u8, u8),
+    /// Client `c` pre-spawns an entity for an *existing* server entity that is still hidden from
+    /// it; the server registers the mapping (visibility is granted by a later operation).
+    MapLate(u8, u8),
     /// Same as `MapPre`, but for a connected client that is not authorized yet: the game fills
     /// `ClientEntityMap` on the connection entity ahead of the authorization.
     MapPreEarly(u8, u8),
@@ -712,11 +732,14 @@ impl Op {
             Op::InsRef(s, t) => format!("insert R->e{} on e{}", t + 1, s + 1),
             Op::SetParent(s, p) => format!("set parent of e{} to e{}", s + 1, p + 1),
             Op::ClearParent(s) => format!("clear parent of e{}", s + 1),
+            Op::SetOwner(s, p) => format!("set owner of e{} to e{}", s + 1, p + 1),
+            Op::ClearOwner(s) => format!("clear owner of e{}", s + 1),
             Op::InsBig(s, l) => format!("insert Big({l}) on e{}", s + 1),
             Op::MutBig(s, l) => format!("mutate Big({l}) of e{}", s + 1),
             Op::MapPre(c, s) => format!("prespawn on c{c} + map e{}", s + 1),
             Op::MapPreUnmarked(c, s) => format!("prespawn on c{c} + map unmarked e{}", s + 1),
             Op::MapPreEarly(c, s) => format!("prespawn on unauthorized c{c} + map e{}", s + 1),
+            Op::MapLate(c, s) => format!("prespawn on c{c} + map existing hidden e{}", s + 1),
             Op::DespawnPre(c, s) => format!("c{c} despawns its prespawned entity for e{}", s + 1),
         }
     }
@@ -776,6 +799,8 @@ pub struct Sim {
     pub send_forced_by_restart: bool,
     /// Client whose connection is closed by the transport after this frame's send systems.
     pub pending_drop: Option<usize>,
+    /// `MapLate`: (client, slot) -> tick whose update message carries the mapping (None until sent).
+    pub late_map_tick: BTreeMap<(usize, u8), Option<u32>>,
     pub acks: AckModel,
     /// (etag, ctag) -> (version, first tick at which that version was observable) of the last edit.
     pub last_edit: BTreeMap<(u8, u8), (u8, Option<u32>)>,
@@ -821,6 +846,7 @@ impl Sim {
             server_stopped_pending_reset: false,
             send_forced_by_restart: false,
             pending_drop: None,
+            late_map_tick: BTreeMap::new(),
             acks: AckModel::default(),
             last_edit: BTreeMap::new(),
             once_sent: BTreeMap::new(),
@@ -1026,12 +1052,27 @@ impl Sim {
                     && !self.is_ancestor(s, p)
             }
             Op::ClearParent(s) => self.alive(s).is_some_and(|e| self.has_tag(e, TCHILD)),
+            Op::SetOwner(s, p) => {
+                self.cfg.with_owner
+                    && s != p
+                    && self.alive(s).is_some()
+                    && self.marked(p)
+                    && self.alive(s).and_then(|e| self.server.world().get::<OwnedBy>(e).map(|o| o.0)) != self.alive(p)
+            }
+            Op::ClearOwner(s) => self.alive(s).is_some_and(|e| self.server.world().get::<OwnedBy>(e).is_some()),
             Op::InsBig(s, _) => self.alive(s).is_some_and(|e| !self.has_tag(e, TBIG)),
             Op::MutBig(s, _) => self.alive(s).is_some_and(|e| self.has_tag(e, TBIG)),
             Op::MapPre(c, s) | Op::MapPreUnmarked(c, s) => {
                 self.alive(s).is_none()
                     && !self.prespawned.contains_key(&(c as usize, s))
                     && self.is_authorized(c as usize)
+            }
+            Op::MapLate(c, s) => {
+                self.cfg.vis != Vis::All
+                    && self.marked(s)
+                    && !self.prespawned.contains_key(&(c as usize, s))
+                    && self.is_authorized(c as usize)
+                    && !self.visible_now(c as usize, self.alive(s).unwrap().to_bits())
             }
             Op::MapPreEarly(c, s) => {
                 self.alive(s).is_none()
@@ -1065,6 +1106,7 @@ impl Sim {
                 && self.alive(s).is_some_and(|e| {
                     let r = self.server.world().entity(e);
                     r.get::<R>().is_some_and(|r| r.0 == target)
+                        || r.get::<OwnedBy>().is_some_and(|o| o.0 == target)
                         || (count_children
                             && r.get::<ChildOf>().is_some_and(|c| c.parent() == target))
                 })
@@ -1259,6 +1301,15 @@ impl Sim {
                 let e = self.alive(s).unwrap();
                 self.server.world_mut().entity_mut(e).remove::<ChildOf>();
             }
+            Op::SetOwner(s, p) => {
+                let e = self.alive(s).unwrap();
+                let pe = self.alive(p).unwrap();
+                self.server.world_mut().entity_mut(e).insert(OwnedBy(pe));
+            }
+            Op::ClearOwner(s) => {
+                let e = self.alive(s).unwrap();
+                self.server.world_mut().entity_mut(e).remove::<OwnedBy>();
+            }
             Op::InsBig(s, len) | Op::MutBig(s, len) => {
                 let e = self.alive(s).unwrap();
                 let is_mut = matches!(op, Op::MutBig(..));
@@ -1269,6 +1320,18 @@ impl Sim {
                 let pre = self.prespawned[&(c as usize, s)];
                 self.clients[c as usize].app.world_mut().entity_mut(pre).despawn();
                 self.pre_despawned.insert((c as usize, s));
+            }
+            Op::MapLate(c, s) => {
+                let pre = self.clients[c as usize].app.world_mut().spawn_empty().id();
+                self.prespawned.insert((c as usize, s), pre);
+                self.late_map_tick.insert((c as usize, s), None);
+                let id = self.alive(s).unwrap();
+                let conn = self.clients[c as usize].conn.unwrap();
+                self.server
+                    .world_mut()
+                    .get_mut::<ClientEntityMap>(conn)
+                    .expect("authorized client has an entity map")
+                    .insert(id, pre);
             }
             Op::MapPre(c, s) | Op::MapPreUnmarked(c, s) | Op::MapPreEarly(c, s) => {
                 // The client spawns its entity in advance; the server spawns its own and
@@ -1372,6 +1435,11 @@ impl Sim {
         self.last_frame_was_tick = is_tick;
         self.last_tick = now;
         if is_tick {
+            for t in self.late_map_tick.values_mut() {
+                if t.is_none() {
+                    *t = Some(now);
+                }
+            }
             for e in self.last_edit.values_mut() {
                 if e.1.is_none() {
                     e.1 = Some(now);
